@@ -18,6 +18,9 @@ type session struct {
 	serverNonce       []byte
 	remoteCertificate []byte
 
+	// activated is set once ActivateSession succeeded for this session.
+	activated bool
+
 	PublishRequests chan PubReq
 }
 
